@@ -816,7 +816,7 @@ static void run_fuzz(void) {
             fclose(f);
         }
     char a_runs[64], a_seed[64];
-    int64_t runs = getenv("VF_FUZZ_RUNS") ? atoll(getenv("VF_FUZZ_RUNS")) : VF_T(5000, 150000);
+    int64_t runs = getenv("VF_FUZZ_RUNS") ? atoll(getenv("VF_FUZZ_RUNS")) : VF_T(5000, 50000);
     snprintf(a_runs, sizeof a_runs, "-runs=%" PRId64, runs);
     snprintf(a_seed, sizeof a_seed, "-seed=%u", (unsigned)(vf_u64(&r) % 4000000000u) + 1u);
     /* no wall-clock unit timeout (the kit's CPU-time watchdog judges totality), no allocation/RSS limits (a refused huge
